@@ -204,6 +204,23 @@ def run_c15(tier):
         st = tlcout.stats(logp)
         require_tlc_ok(st, logp, cfgname)
         mst[cfgname] = st
+    # the same loops with unconstrained limits: inductive invariants discharged by Apalache (all limits)
+    import shutil
+    apal = {}
+    adir = os.path.join(OUT, "tlc", "C15_apalache")
+    shutil.rmtree(adir, ignore_errors=True)
+    os.makedirs(adir)
+    shutil.copy(os.path.join(SPEC, "apalache", "RunnerInd.tla"), adir)
+    for name, args in [("Runner: Init=>Ind", ["--init=Init", "--next=NextRunner", "--inv=IndRunner", "--length=0"]),
+                       ("Runner: Ind/\\Next=>Ind'", ["--init=IndInitRunner", "--next=NextRunner", "--inv=IndRunner", "--length=1"]),
+                       ("run_eqsat: Init=>Ind", ["--init=Init", "--next=NextEqsat", "--inv=IndEqsat", "--length=0"]),
+                       ("run_eqsat: Ind/\\Next=>Ind'", ["--init=IndInitEqsat", "--next=NextEqsat", "--inv=IndEqsat", "--length=1"])]:
+        r = subprocess.run(["timeout", "600", "apalache-mc", "check"] + args + ["RunnerInd.tla"], cwd=adir, capture_output=True, text=True)
+        apal[name] = "EXITCODE: OK" in r.stdout
+        if not apal[name]:
+            sys.stderr.write(r.stdout[-1500:])
+            raise ToolError("Apalache could not discharge %s for RunnerInd.tla" % name)
+    shutil.rmtree(os.path.join(adir, "_apalache-out"), ignore_errors=True)
     bad, panics, st, summ, lines = rw_trace(tier, prop, 3, runs=(900 if tier == "quick" else 9000))
     findings = bad_to_findings(bad, lines, prop) + [f for f in panics if f["prop"] == prop]
     evs = [json.loads(l) for l in lines]
@@ -223,7 +240,7 @@ def run_c15(tier):
                    "recorded runs with iter_limit 0..3, node limits 20/40/60/100 (a hook stops run-away growth above 80 e-nodes), hooks failing at iteration 0..2; every iteration's stop "
                    "decision must be one the specification allows given the INDEPENDENT fingerprint (fp_changed => apply_rewrites returned true), "
                    "reports checked, saturation re-checked; non-trivial = iterations that changed the fingerprint",
-           "stop_reasons_seen": reasons, "tlc_model": mst, "tlc_trace": st, "recorder": summ}
+           "stop_reasons_seen": reasons, "tlc_model": mst, "apalache_inductive_obligations_for_all_limits": apal, "tlc_trace": st, "recorder": summ}
     finish(prop, tier, t0, findings, cov, assumptions=["the loop's own clock is bracketed by the recorder's clock (hook time stamps), not read; time limits used: the defaults, zero and 5 s"])
 
 
